@@ -268,6 +268,11 @@ def dec_val(ty, v, cmap="int"):
         if a is not None and len(a) == 1:
             return {"tag": "const", "v": dec_int(a[0])}
         raise Garbled(f"expected ConstPropagation, got {v!r}")
+    if ty == "lex_dual_pair":
+        if isinstance(v, list) and len(v) == 2:
+            d = ctor(v[0], "Dual")
+            return [dec_int(d[0] if d is not None and len(d) == 1 else v[0]), dec_int(v[1])]
+        raise Garbled(f"expected pair, got {v!r}")
     if ty == "lex_pair":
         if isinstance(v, list) and len(v) == 2:
             return [dec_int(v[0]), dec_int(v[1])]
